@@ -6,6 +6,7 @@ set -u
 ID="$1"; PATCH="$(readlink -f "$2")"; TIER="${3:-quick}"
 WT="/tmp/mutwt-$$-$ID"
 git -C /repo worktree add --detach -f "$WT" HEAD >/dev/null 2>&1 || { echo "worktree failed"; exit 3; }
-trap 'git -C /repo worktree remove --force "$WT" >/dev/null 2>&1; rm -rf "/verif/.work/harness-$(echo "$WT" | sed "s/[^A-Za-z0-9]\+/_/g; s/^_//")"' EXIT
+TAG="$(echo "$WT" | sed "s/[^A-Za-z0-9]\+/_/g; s/^_//")"
+trap 'git -C /repo worktree remove --force "$WT" >/dev/null 2>&1; rm -rf "/verif/.work/harness-$TAG" "/verif/.work/harness_store-$TAG"; rm -f /verif/.build/"$TAG".*' EXIT
 if ! git -C "$WT" apply "$PATCH"; then echo "patch does not apply"; exit 3; fi
 cd /verif && VERIF_REPO="$WT" ./run.py check "$ID" --tier "$TIER"
